@@ -47,7 +47,7 @@ def build_shim():
     try:
         if not (os.path.exists(out) and os.path.getmtime(out) >= os.path.getmtime(src)):
             env = dict(os.environ, VERIF_BUILD=BUILD)
-            r = subprocess.run(["sh", script], env=env, capture_output=True, text=True)
+            r = subprocess.run(["bash", script], env=env, capture_output=True, text=True)   # bash: the script uses pipefail
             if r.returncode != 0 or not os.path.exists(out):
                 sys.stderr.write("shim build failed:\n" + r.stdout + r.stderr)
                 return None
